@@ -18,6 +18,8 @@ pub struct Pki {
     pub other: Identity,
     pub self_signed: Identity,
     pub untrusted: Identity,
+    /// trusted leaf with a DNS name (good.test) and an iPAddress (127.0.0.1) subject alternative name
+    pub ip_good: Identity,
 }
 
 fn ca(name: &str) -> (rcgen::Certificate, KeyPair) {
@@ -30,7 +32,11 @@ fn ca(name: &str) -> (rcgen::Certificate, KeyPair) {
 }
 
 fn leaf(name: &str, issuer: Option<(&rcgen::Certificate, &KeyPair)>) -> Identity {
-    let mut p = CertificateParams::new(vec![name.to_string()]).unwrap();
+    leaf_sans(name, &[name], issuer)
+}
+
+fn leaf_sans(name: &str, sans: &[&str], issuer: Option<(&rcgen::Certificate, &KeyPair)>) -> Identity {
+    let mut p = CertificateParams::new(sans.iter().map(|s| s.to_string()).collect::<Vec<_>>()).unwrap();
     p.distinguished_name.push(DnType::CommonName, name);
     let k = KeyPair::generate().unwrap();
     let c = match issuer {
@@ -55,5 +61,6 @@ pub fn generate() -> Pki {
         other: leaf("other.test", Some((&ca_cert, &ca_key))),
         self_signed: leaf("good.test", None),
         untrusted: leaf("good.test", Some((&bad_ca, &bad_key))),
+        ip_good: leaf_sans("good.test", &["good.test", "127.0.0.1"], Some((&ca_cert, &ca_key))),
     }
 }
